@@ -548,6 +548,13 @@ func c10Exec(c fw.Case) *fw.Result {
 			if id, err := osm.ParseObjectID(mut); err == nil {
 				res.Violatef("C10/reject-object/"+class, "ParseObjectID(%q) (mutated from %q) accepted as %v", mut, valid, id)
 			}
+			if class == "gen-letter-ref" || class == "gen-letter-ver" {
+				ok := c10Kinds[r.Intn(len(c10Kinds))]
+				omut := string(ok) + mut[len(string(k)):]
+				if id, err := osm.ParseObjectID(omut); err == nil {
+					res.Violatef("C10/reject-object/"+class+"/"+string(ok), "ParseObjectID(%q) accepted as %v", omut, id)
+				}
+			}
 			if id, err := osm.ParseElementID(mut); err == nil {
 				res.Violatef("C10/reject-element/"+class, "ParseElementID(%q) accepted as %v", mut, id)
 			}
@@ -580,6 +587,13 @@ func c10Exec(c fw.Case) *fw.Result {
 			mut := fmt.Sprintf("%s/%s:%s", k, refS, verS)
 			if id, err := osm.ParseObjectID(mut); err == nil {
 				res.Violatef("C10/reject-object/"+class, "ParseObjectID(%q) accepted as %v", mut, id)
+			}
+			// the same malformed numbers under the kinds that are no elements: an object id of
+			// a changeset, note, user or bounds has the same kind/ref[:version] shape
+			ok := c10Kinds[r.Intn(len(c10Kinds))]
+			omut := fmt.Sprintf("%s/%s:%s", ok, refS, verS)
+			if id, err := osm.ParseObjectID(omut); err == nil {
+				res.Violatef("C10/reject-object/"+class+"/"+string(ok), "ParseObjectID(%q) accepted as %v", omut, id)
 			}
 			if id, err := osm.ParseElementID(mut); err == nil {
 				res.Violatef("C10/reject-element/"+class, "ParseElementID(%q) accepted as %v", mut, id)
